@@ -208,6 +208,11 @@ var funcSpecs = []funcSpec{
 	{rel: "cmd/age-keygen", name: "main", abstract: []string{"os.OpenFile", "os.Open", "flag.Arg", "main.convert", "main.generate", "main.warning"}, exits: []string{"main.errorf"}, world: true,
 		opaque: map[string]string{"os.File": "ζ", "io.Reader": "ζ", "io.Writer": "ζ", "fs.FileInfo": "φ", "tapeτ": "τ"}, startAt: "out := os.Stdout", startVars: []string{"convertFlag", "outFlag"},
 		stopAt: "convertFlag", stopRet: []string{}, expose: []string{"out", "in"}},
+	{rel: "cmd/age", name: "decryptNotPass", abstract: []string{"main.parseIdentitiesFile", "plugin.NewIdentityWithoutData", "main.decrypt"}, exits: []string{"main.errorf"}, world: true,
+		opaque: map[string]string{"age.Identity": "ι", "plugin.Identity": "ι", "main.rejectScryptIdentity": "ι", "plugin.ClientUI": "υ", "io.Writer": "ζ", "tapeτ": "τ"}},
+	{rel: "cmd/age", name: "encryptPass", abstract: []string{"main.passphrasePromptForEncryption", "age.NewScryptRecipient", "main.testOnlyConfigureScryptIdentity", "main.encrypt"}, exits: []string{"main.errorf"}, world: true,
+		opaque: map[string]string{"age.Recipient": "ρ", "age.ScryptRecipient": "ρ", "io.Writer": "ζ", "tapeτ": "τ"}},
+	{rel: "cmd/age", name: "(rejectScryptIdentity).Unwrap", exits: []string{"main.errorWithHint"}},
 	{rel: "", name: "aeadEncrypt", abstract: []string{"chacha20poly1305.New"}, opaque: map[string]string{"cipher.AEAD": "α"}},
 	{rel: "", name: "aeadDecrypt", abstract: []string{"chacha20poly1305.New"}, opaque: map[string]string{"cipher.AEAD": "α"}},
 	{rel: "agessh", name: "aeadEncrypt", abstract: []string{"chacha20poly1305.New"}, opaque: map[string]string{"cipher.AEAD": "α"}},
@@ -864,6 +869,16 @@ func (c *fctx) expr(e ast.Expr) string {
 		return "(← Go.slice " + c.expr(x.X) + " " + lo + " " + hi + ")"
 	case *ast.CompositeLit:
 		t := c.typeOf(e)
+		if lt, ok := leanTypeOf(t); ok && len([]rune(lt)) == 1 {
+			// a value of a type that is opaque here, written without fields (`rejectScryptIdentity{}`): an abstract constant
+			nt := namedOf(t)
+			if len(x.Elts) != 0 || nt == nil {
+				c.fail(e, "literal of an opaque type with fields")
+			}
+			an := nt.Obj().Name() + "_value"
+			c.useAbstractName(an, "("+an+" : "+lt+")")
+			return an
+		}
 		if _, isStruct := t.Underlying().(*types.Struct); isStruct {
 			return c.structLit(x)
 		}
@@ -3971,6 +3986,8 @@ func (t *ftr) translate(fi *FuncInfo, from *fctx, at ast.Node) string {
 	var doc strings.Builder
 	fmt.Fprintf(&doc, "/-- %s (%s:%d)", fi.Qual(), fi.File, t.pr.line(fi.Decl.Pos()))
 	for _, s := range c.sites {
+		// (texts quoted from the source must not open or close a Lean comment)
+		s = strings.ReplaceAll(strings.ReplaceAll(s, "/-", "/ -"), "-/", "- /")
 		fmt.Fprintf(&doc, "\n    %s", s)
 	}
 	var absParams, absArgs []string
